@@ -127,6 +127,17 @@ def rule_link(S, la):
                         e['ok'] = False
                         e['path'] = e['path'] or ctx.witness()
                 return None
+            if nd['k'] == 'BinaryOperator' and nd.get('op') == '=':
+                # pointer copy p = q: what is known about q's parent pointer is known about p's
+                l0 = f.strip(f.ch(nd)[0], casts=True)
+                r0 = f.strip(f.ch(nd)[1], casts=True)
+                if l0 is not None and r0 is not None and l0['k'] == 'DeclRefExpr' and r0['k'] == 'DeclRefExpr':
+                    lt, rt = la.tok(fi, l0), la.tok(fi, r0)
+                    lts = {lt, ('var', l0.get('id'))}
+                    parents = frozenset(x for x in parents if x[0] not in lts) | \
+                        frozenset((t, pt) for (xt, pt) in parents if xt in (rt, ('var', r0.get('id'))) for t in lts)
+                    return (links, parents)
+                return st
             if nd['k'] not in ('CXXMemberCallExpr', 'CallExpr'):
                 return st
             cq = nd.get('cq')
